@@ -255,7 +255,7 @@ Section WithDict.
                   then TOk (L "parameters += wrapify(arg_stack, " ++ N_to_dec (dec_value p 0) ++ L ", ctx)" ++ [nl])
                   else TErr TValue)
                else if str_eqb p [42] then
-                 TOk (L "parameters += wrapify(stack, pop(arg_stack, 1, ctx=ctx), ctx=ctx)" ++ [nl])
+                 TOk (L "parameters += wrapify(arg_stack, pop(arg_stack, 1, ctx=ctx), ctx=ctx)" ++ [nl])
                else TOk (L "VAR_" ++ keep re_keep_fnparam p ++ L " =pop(arg_stack, 1, ctx=ctx)" ++ [nl]))
               (fun line => bindT (params_text r) (fun rest => TOk (line ++ rest)))
     end.
